@@ -197,12 +197,17 @@ var c16Frame = regexp.MustCompile(`(?m)^main\.([A-Za-z0-9_]+)(?:\[[^\]]*\])?(?:\
 // c16Classify runs fc on files (already written in dir) and classifies the outcome.
 // gens: expected gen files (one per .fo argument, in order).
 func c16Run(fc, dir string, args []string, gens []string) (impl.Result, c16Outcome) {
+	return c16RunT(fc, dir, args, gens, 10*time.Second, 30*time.Second)
+}
+
+// c16RunT: first attempt with timeout t1, a timed-out run is repeated with t2 before it is called a hang.
+func c16RunT(fc, dir string, args []string, gens []string, t1, t2 time.Duration) (impl.Result, c16Outcome) {
 	for _, g := range gens {
 		os.Remove(filepath.Join(dir, g))
 	}
-	r := impl.Run(dir, 10*time.Second, "", fc, args...)
+	r := impl.Run(dir, t1, "", fc, args...)
 	if r.TimedOut {
-		r = impl.Run(dir, 30*time.Second, "", fc, args...)
+		r = impl.Run(dir, t2, "", fc, args...)
 	}
 	out := r.Out()
 	switch {
@@ -495,6 +500,7 @@ func checkC16(c *core.Ctx) {
 	}
 	c16IllTyped(c, fc, sc)
 	c16TypeGraphs(c, fc, sc)
+	c16Scale(c, fc, sc)
 	c16Faults(c, fc, sc)
 	c16ArgShapes(c, fc, sc)
 }
@@ -636,7 +642,6 @@ func c16IllTyped(c *core.Ctx, fc string, sc *impl.Scratch) {
 	}
 }
 
-
 // c16TypeGraphs: type declarations whose reference graph is large or cyclic.  fc's passes walk from a type into
 // the types of its fields / payloads; a walk that re-enters a type at every occurrence is exponential in the
 // depth of a chain in which each type mentions the next one twice, and endless on a cycle.  Enumerated:
@@ -763,6 +768,126 @@ func c16TypeGraphs(c *core.Ctx, fc string, sc *impl.Scratch) {
 	close(jobs)
 	wg.Wait()
 	c.Set("type_graphs", len(jobsList))
+}
+
+// c16Scale: inputs whose SIZE is the point.  (a) one very long physical line (a string literal, a // comment, a
+// /* */ comment, a slice literal, a raw string of many lines) between two ordinary definitions, at lengths around
+// the sizes where buffered readers and scanners change behaviour (4 KiB, 64 KiB) and beyond; the run must be ok
+// AND every top-level definition of the input must have its declaration in gen_t.go ("completely written" -
+// a source silently cut at a long line still gives a newline-terminated file).  (b) deep nesting: parentheses,
+// slice literals, tuples, `not`, if/else blocks, lambdas, slice types, nested to depth 50..5000 (thorough
+// ..100000): ok or rejected, never a Go runtime fatal error.
+func c16Scale(c *core.Ctx, fc string, sc *impl.Scratch) {
+	type job struct {
+		name, src string
+		defs      []string // Go declarations that must be present when the run is ok
+		class     string   // family, for the signature
+	}
+	var list []job
+	lens := []int{1000, 4095, 4096, 4097, 65535, 65536, 65537, 70000, 200000}
+	if c.Thorough() {
+		lens = append(lens, 1<<20, 3<<20)
+	}
+	rep := func(s string, n int) string { return strings.Repeat(s, n/len(s)+1)[:n] }
+	for _, n := range lens {
+		pre := "package main\n\nlet before () =\n  1\n\n"
+		post := "\nlet after () =\n  2\n"
+		list = append(list,
+			job{fmt.Sprintf("string literal of %d bytes on one line", n), pre + "let payload () = \"" + rep("x", n) + "\"\n" + post, []string{"func before", "func payload", "func after"}, "long-line"},
+			job{fmt.Sprintf("// comment of %d bytes", n), pre + "// " + rep("c ", n) + "\n" + post, []string{"func before", "func after"}, "long-line"},
+			job{fmt.Sprintf("/* */ comment of %d bytes on one line", n), pre + "/* " + rep("c ", n) + " */\n" + post, []string{"func before", "func after"}, "long-line"},
+			job{fmt.Sprintf("raw string of %d bytes over many lines", n), pre + "let payload () =\n  `" + rep("line\n", n) + "`\n" + post, []string{"func before", "func payload", "func after"}, "long-line"},
+		)
+		if n <= 70000 {
+			list = append(list, job{fmt.Sprintf("slice literal of %d bytes on one line", n), pre + "let payload () = [" + rep("1; ", n) + "1]\n" + post, []string{"func before", "func payload", "func after"}, "long-line"})
+		}
+	}
+	// fc's passes are linear in the depth for parentheses, pairs, not and slice types, but about CUBIC for nested
+	// slice literals and lambdas (measured on the pinned tree: 1000 deep 1.2 s / 7 s, 2000 deep 8.5 s / 39 s) -
+	// slow, not endless; the depths are chosen so that the unchanged tree needs at most a few seconds, and this
+	// family runs with a 60 s timeout and a 240 s re-run before anything is called a hang
+	depths := []int{50, 200, 1000, 5000}
+	if c.Thorough() {
+		depths = append(depths, 20000)
+	}
+	for _, d := range depths {
+		open, close := strings.Repeat("(", d), strings.Repeat(")", d)
+		list = append(list,
+			job{fmt.Sprintf("parentheses nested %d deep", d), "package main\n\nlet f () =\n  " + open + "1" + close + "\n", nil, "deep-nesting"},
+			job{fmt.Sprintf("pairs nested %d deep", d), "package main\n\nlet f () =\n  " + strings.Repeat("(1, ", d) + "1" + close + "\n", nil, "deep-nesting"},
+			job{fmt.Sprintf("not applied %d times", d), "package main\n\nlet f (b:bool) =\n  " + strings.Repeat("not (", d) + "b" + close + "\n", nil, "deep-nesting"},
+			job{fmt.Sprintf("slice type nested %d deep", d), "package main\n\nlet f (x:" + strings.Repeat("[]", d) + "int) =\n  1\n", nil, "deep-nesting"},
+		)
+		if d == 20000 {
+			// the recorded finding: the recursive-descent parser's stack is proportional to the nesting depth
+			od, cd := strings.Repeat("(", 100000), strings.Repeat(")", 100000)
+			list = append(list, job{"parentheses nested 100000 deep", "package main\n\nlet f () =\n  " + od + "1" + cd + "\n", nil, "deep-nesting"})
+		}
+		if d <= 1000 {
+			dd := d
+			if dd > 500 && !c.Thorough() {
+				dd = 500
+			}
+			list = append(list,
+				job{fmt.Sprintf("slice literals nested %d deep", dd), "package main\n\nlet f () =\n  " + strings.Repeat("[", dd) + "1" + strings.Repeat("]", dd) + "\n", nil, "deep-nesting"},
+				job{fmt.Sprintf("lambdas nested %d deep", dd), "package main\n\nlet f () =\n  " + strings.Repeat("fun (a:int) -> ", dd) + "1\n", nil, "deep-nesting"})
+			// if/else blocks nested by indentation
+			var sb strings.Builder
+			sb.WriteString("package main\n\nlet f (b:bool) =\n")
+			for i := 0; i < d; i++ {
+				ind := strings.Repeat(" ", 2+i)
+				sb.WriteString(ind + "if b then\n" + ind + " 1\n" + ind + "else\n")
+			}
+			sb.WriteString(strings.Repeat(" ", 2+d) + "2\n")
+			list = append(list, job{fmt.Sprintf("if/else blocks nested %d deep", d), sb.String(), nil, "deep-nesting"})
+		}
+	}
+	jobs := make(chan job, 16)
+	var wg sync.WaitGroup
+	for w := 0; w < c.Workers; w++ {
+		wg.Add(1)
+		go func() {
+			defer wg.Done()
+			d := sc.TempDir("c16s_")
+			defer os.RemoveAll(d)
+			for j := range jobs {
+				if c.TooManyViolations() || c.Expired() {
+					continue
+				}
+				os.WriteFile(filepath.Join(d, "t.fo"), []byte(j.src), 0o644)
+				r, o := c16RunT(fc, d, []string{"t.fo"}, []string{"gen_t.go"}, 60*time.Second, 240*time.Second)
+				c.Count(1, 1, 1, 1)
+				c.Hist("by_operator", "scale:"+j.class, 1)
+				c.DistinctNT(j.name, true)
+				if o.class == "ok" && len(j.defs) > 0 {
+					gen, _ := os.ReadFile(filepath.Join(d, "gen_t.go"))
+					for _, want := range j.defs {
+						if !strings.Contains(string(gen), want) {
+							o = c16Outcome{class: "ok-incomplete", detail: "exit 0 but gen_t.go has no declaration '" + want + "' (" + fmt.Sprint(len(gen)) + " bytes written)"}
+							break
+						}
+					}
+				}
+				c.Outcome(o.class)
+				c.Hist("outcome_counts", "scale:"+o.class, 1)
+				if o.class == "ok" || (o.class == "rejected" && j.class == "deep-nesting") {
+					continue
+				}
+				sig := "C16:" + o.class + ":" + j.class
+				if o.class == "stack-overflow" || o.class == "oom" || o.class == "fatal" {
+					sig = "C16:runtime-fatal:" + j.class + ":" + strings.Fields(j.name)[0]
+				}
+				c.Violation(sig, fmt.Sprintf("fc on %s: %s %s", j.name, o.class, o.detail),
+					map[string]any{"kind": "scale", "case": j.name, "expected": "ok (long lines) / ok or rejected (deep nesting)", "observed": o.class + " " + o.detail + " exit=" + fmt.Sprint(r.Exit) + " " + trunc(r.Out(), 800)})
+			}
+		}()
+	}
+	for _, j := range list {
+		jobs <- j
+	}
+	close(jobs)
+	wg.Wait()
+	c.Set("scale_inputs", len(list))
 }
 
 // ---- output-path and input faults ----
